@@ -31,6 +31,8 @@ def run(repo, rep):
     rep.assumptions = ['CPython GIL: single dict / list operations are atomic', 'functools.singledispatch trusted']
     n_inv, cone, shared, sites, cone_sites = SS.check_write_inventory(repo, rep, 'C20.b')
     rep.floor('C20.b', n_inv, 4)
+    rep.floor('C20.b:promotion', SS.promotion_consistency(repo, rep, 'C20.b'), 8)
+    rep.floor('C20.d', SS.fresh_visited(repo, rep, 'C20.d'), 8)
     lock_names = {name for (_, name) in SS.locks(repo)}
     rep.analysed['locks'] = sorted(lock_names)
     written = {s.obj.key for s in cone_sites if s.kind == 'write'}
